@@ -69,19 +69,24 @@ type fconn struct {
 	tmpls         []tmpl
 	weights       []int // cumulative weights over tmpls
 	wsum          int
-	budget        int64 // datagrams still to feed; <0: unlimited
-	serial        *atomic.Uint64
-	fedTotal      *atomic.Int64
+	budget        int64  // datagrams still to feed; <0: unlimited
+	serial        uint64 // receiver-local; the conn id is in the top bits
 	stopFeed      *atomic.Bool
 	closed        chan struct{}
 	closeOnce     sync.Once
 	parked        atomic.Pointer[[]int] // non-nil while the receiver is blocked in ReadBatch
 	st            connStats
-	lastBFD       atomic.Int64 // unix nanos of the last two BFD packets written
-	prevBFD       atomic.Int64
-	lastBFDState  atomic.Int32
-	faults        bool // inject write faults and delays
+	bfdMu         sync.Mutex        // guards bfdSeen (sender goroutine vs. main goroutine only)
+	bfdSeen       map[uint32]*bfdTx // by MyDiscriminator of the BFD packets written
+	faults        bool              // inject write faults and delays
 	pauses        bool
+}
+
+// bfdTx records when a BFD session (identified by its discriminator) last
+// transmitted; used only to choose the moment of the quiescent Shutdown.
+type bfdTx struct {
+	last, prev int64
+	state      int
 }
 
 func (c *fconn) pick() *tmpl {
@@ -165,7 +170,8 @@ func (c *fconn) ReadBatch(msgs conn.Messages) (int, error) {
 			}
 		}
 		l := copy(buf, t.b)
-		ser := c.serial.Add(1) & (1<<40 - 1)
+		c.serial++
+		ser := (uint64(c.id)<<34 | c.serial&(1<<34-1)) & (1<<40 - 1)
 		if t.class != clGarbage && t.class != clSTUN && l >= 4 {
 			// flow id: not covered by any MAC; spreads packets over processors
 			f := c.rngR.Uint32()
@@ -191,7 +197,6 @@ func (c *fconn) ReadBatch(msgs conn.Messages) (int, error) {
 		c.budget -= int64(n)
 	}
 	c.st.Fed.Add(int64(n))
-	c.fedTotal.Add(int64(n))
 	return n, nil
 }
 
@@ -225,10 +230,19 @@ func (c *fconn) WriteBatch(msgs conn.Messages, _ int) (int, error) {
 		switch {
 		case len(buf) > 4 && buf[4] == 203:
 			c.st.OutBFD.Add(1)
-			c.prevBFD.Store(c.lastBFD.Load())
-			c.lastBFD.Store(time.Now().UnixNano())
-			if p := bfdPayload(buf); len(p) >= 2 {
-				c.lastBFDState.Store(int32(p[1] >> 6))
+			if p := bfdPayload(buf); len(p) >= 8 {
+				disc := binary.BigEndian.Uint32(p[4:8])
+				c.bfdMu.Lock()
+				if c.bfdSeen == nil {
+					c.bfdSeen = map[uint32]*bfdTx{}
+				}
+				t := c.bfdSeen[disc]
+				if t == nil {
+					t = &bfdTx{}
+					c.bfdSeen[disc] = t
+				}
+				t.prev, t.last, t.state = t.last, time.Now().UnixNano(), int(p[1]>>6)
+				c.bfdMu.Unlock()
 			}
 		case len(buf) > 4 && buf[4] == 202:
 			c.st.OutSCMP.Add(1)
